@@ -62,7 +62,13 @@ class SerFailValue(ValueError):
     pass
 
 
-SER_EXC = [SerFail, SerFailRuntime, SerFailLookup, SerFailType, SerFailValue, RuntimeError]
+class SerFailStop(StopIteration):
+    pass
+
+
+# (StopIteration: what a serializer drawing from an exhausted iterator lets escape; an implementation that runs
+# the serializers inside a lazy map/zip would take it for the end of the iteration)
+SER_EXC = [SerFail, SerFailRuntime, SerFailLookup, SerFailType, SerFailValue, RuntimeError, StopIteration, SerFailStop]
 
 
 def prepare():
